@@ -51,13 +51,22 @@ type rapidT interface {
 // countPlans runs the history once without a crash and returns every hit of a
 // hook point with one of the prefixes.
 func countPlans(f rapidT, root string, ops []Op, prefixes []string) (plans []pointHit, inconclusive bool) {
+	plans, _, inconclusive = countPlansTimed(f, root, ops, prefixes)
+	return
+}
+
+// countPlansTimed additionally returns how long the ops took in the counting
+// run (from "hub is open" to the end of the child), the range from which the
+// delays of kills at arbitrary instants are drawn.
+func countPlansTimed(f rapidT, root string, ops []Op, prefixes []string) (plans []pointHit, opsTime time.Duration, inconclusive bool) {
 	cdir := filepath.Join(root, "count")
 	_ = os.MkdirAll(cdir, 0o755)
 	countFile := filepath.Join(root, "points")
 	res := runWriterChild(crashScript{Dir: cdir, Ops: ops}, []string{"VERIF_POINT_COUNTS=" + countFile, "VERIF_MEMTABLE_MB=8"}, 60*time.Second)
 	if res.timeout {
-		return nil, true
+		return nil, 0, true
 	}
+	opsTime = res.opsTime
 	if res.exit != 0 || res.acked != len(ops)-1 {
 		failCase(f, ops, nil, "the history does not run to completion without a crash: exit=%d acked=%d of %d\n%s", res.exit, res.acked, len(ops), tail(res.out))
 	}
@@ -70,7 +79,40 @@ func countPlans(f rapidT, root string, ops []Op, prefixes []string) (plans []poi
 		}
 	}
 	_ = os.RemoveAll(cdir)
-	return plans, false
+	return plans, opsTime, false
+}
+
+// execTimedKills re-executes the history and kills the child from outside at
+// drawn instants of the op sequence (permille of the counting run's duration).
+// Such a case is schedule dependent: the replay file carries the script, the
+// drawn delay and the acknowledged prefix that was observed, not a guarantee
+// that the same instruction is hit again.
+func execTimedKills(f rapidT, root string, ops []Op, opsTime time.Duration, permilles []int) {
+	for i, pm := range permilles {
+		dir := filepath.Join(root, fmt.Sprintf("k%d", i))
+		_ = os.MkdirAll(dir, 0o755)
+		delay := time.Duration(int64(opsTime) * int64(pm) / 1000)
+		r := runWriterChildKill(crashScript{Dir: dir, Ops: ops}, []string{"VERIF_MEMTABLE_MB=8"}, 60*time.Second, delay)
+		if r.timeout {
+			kit.S().Inconcl()
+			_ = os.RemoveAll(dir)
+			continue
+		}
+		if !r.killed {
+			// the child finished before the kill arrived
+			kit.S().Class("timed-kill-after-completion", 1)
+			_ = os.RemoveAll(dir)
+			continue
+		}
+		inflight := r.acked + 1
+		msg := verifyCrashed(dir, ops, r.acked)
+		kit.S().Case(map[string]any{"ops": ops, "timedKillPermille": pm, "delay": delay.String(), "acked": r.acked}, inflight < len(ops), "timed-kill", "inflight:"+opKind(ops, inflight))
+		kit.S().AddExtra("timed_kill_cases", 1)
+		_ = os.RemoveAll(dir)
+		if msg != "" {
+			failCase(f, ops, nil, "after a kill from outside %v after the hub was open (permille %d of the op sequence; last acknowledged op %d; schedule dependent):\n%s", delay, pm, r.acked, msg)
+		}
+	}
 }
 
 // runCrashCase enumerates crash plans for one history.
@@ -79,13 +121,18 @@ func runCrashCase(t *rapid.T, ops []Op, maxPlans int, prefixes []string) {
 	defer os.RemoveAll(root)
 	kit.Journal(ops)
 	defer kit.JournalDone()
-	plans, inconcl := countPlans(t, root, ops, prefixes)
+	plans, opsTime, inconcl := countPlansTimed(t, root, ops, prefixes)
 	if inconcl {
 		kit.S().Inconcl()
 		return
 	}
 	if len(plans) == 0 {
 		t.Skip("no hook point hit")
+	}
+	// kills at arbitrary instants (thorough: more of them)
+	var timedPermilles []int
+	if n := kit.EnvInt("VERIF_TIMED_KILLS", 2); n > 0 && opsTime > 0 {
+		timedPermilles = rapid.SliceOfN(rapid.IntRange(0, 1000), n, n).Draw(t, "timedKills")
 	}
 	// exhaustive when small, otherwise a drawn subset (kept inside rapid so it shrinks/replays)
 	if len(plans) > maxPlans {
@@ -100,6 +147,9 @@ func runCrashCase(t *rapid.T, ops []Op, maxPlans int, prefixes []string) {
 		kit.S().Class("plans-exhaustive", 1)
 	}
 	execPlans(t, root, ops, plans, true)
+	if len(timedPermilles) > 0 {
+		execTimedKills(t, root, ops, opsTime, timedPermilles)
+	}
 }
 
 // execPlans re-executes the history once per plan with the child killed there
